@@ -7,21 +7,21 @@ package ina
 
 //@ func extractJWPlayerVersion
 //@   property C10
-//@   sweep idx slice
+//@   sweep idx slice extnil
 //@   replay c10_inaVersion
 //@ func getJWPlayerURLs
 //@   property C10
 //@   opaque
-//@   sweep idx slice div assert
+//@   sweep idx slice div assert extnil
 //@   loop range invariant [matches] (arrof(matches) == 0 || !samearray(matches, URLs)) && forall(j, 0, len(matches), len(matches[j]) >= regexp.minMatchLen(playerRegex)) && regexp.minMatchLen(playerRegex) >= 2
 //@ func ExtractPlayerURLs
 //@   property C10
 //@   opaque
-//@   sweep idx slice div assert
+//@   sweep idx slice div assert extnil
 //@ func ExtractPlayerURLs$1
 //@   property C10
 //@   opaque
-//@   sweep idx slice div assert
+//@   sweep idx slice div assert extnil
 
 // every other function of the package (helpers added later included)
-//@ sweepall C10 idx slice div assert
+//@ sweepall C10 idx slice div assert extnil
